@@ -89,7 +89,10 @@ static void apply_overrides(Case &c, const std::string &ov) {
   for (auto &kv : j.o) {
     if (kv.first == "domain")
       c.domain = kv.second.as_str();
-    else
+    else if (kv.first == "rewrite") {
+      for (auto &w : kv.second.a)
+        rewrite_program(c.prog, w.as_str());
+    } else
       c.params.set(kv.first, kv.second);
   }
 }
@@ -109,6 +112,9 @@ static uint64_t run_seed(uint64_t root, long index) {
   return mix64(root ^ mix64((uint64_t)index + 0x1000)) & 0x3fffffffffffffffULL;
 }
 
+static std::string g_force_overrides;
+static void apply_overrides(Case &c, const std::string &ov);
+
 static RunRecord do_run(const std::vector<const PropertyEngine *> &engs, const Tier &tier,
                         const std::vector<std::vector<std::string>> &doms, uint64_t root,
                         long index, Stats &st) {
@@ -121,6 +127,8 @@ static RunRecord do_run(const std::vector<const PropertyEngine *> &engs, const T
   Rng r(rr.seed);
   rr.cs = pe->gen(r, tier, doms[ei]);
   rr.cs.origin_seed = rr.seed;
+  if (!g_force_overrides.empty())
+    apply_overrides(rr.cs, g_force_overrides);
   st.inc("runs");
   st.inc("engine_" + pe->id);
   st.inc("domain_" + rr.cs.domain);
@@ -466,6 +474,7 @@ static int property_main(const Options &o) {
       int dn = open("/dev/null", O_WRONLY);
       if (dn >= 0) {
         dup2(dn, 2);
+        dup2(dn, 1); // crab prints unguarded diagnostics on stdout
       }
       _exit(worker_main(wo));
     }
@@ -843,6 +852,8 @@ int main(int argc, char **argv) {
       o.domains = next();
     else if (a == "--overrides")
       o.overrides = next();
+    else if (a == "--force")
+      g_force_overrides = next(); // overrides applied to every generated case (experiments)
     else if (a == "--max-seconds")
       o.max_seconds = atof(next().c_str());
     else if (a == "--start")
@@ -867,6 +878,11 @@ int main(int argc, char **argv) {
     }
   }
   crab::CrabEnableWarningMsg(false);
+  if (const char *l = getenv("CRABSIM_LOG")) // debugging aid: crab's own log tags
+    for (auto &t : split(l, ','))
+      crab::CrabEnableLog(t);
+  if (const char *v = getenv("CRABSIM_VERBOSE"))
+    crab::CrabEnableVerbosity((unsigned)atoi(v));
   if (!o.seed_set) {
     if (const char *s = getenv("VERIF_SEED"))
       o.seed = strtoull(s, nullptr, 10);
